@@ -48,12 +48,13 @@ text = ['## 7. Seeded changes (independent sub-agents, property text only)', '',
         'used, which pushed the later changes into code no check covered yet (block iterator, file metadata, file names, table cache,',
         'snapshot list, linked list, writer protocol, log writer faults, table builder finalisation, filter block reader, disk lock).',
         'Round e had no steer beyond the two flavours of the brief (multi-step / two sites; crash, fault, interleaving, unusual input); rounds f and g',
-        'pointed each agent at a different group of source files (g: the files the earlier rounds had touched least). Several agents of one round arrive at the same change independently',
+        'pointed each agent at a different group of source files (g: the files the earlier rounds had touched least); rounds h and i again carried an exclusion list - every function used by any earlier change - and three of their agents (C17h1, C02i1, C10i1) reported that they could find no qualifying change outside that list. Several agents of one round arrive at the same change independently',
         '(sequence number published before the memtable insert: C03e2, C06e1, C06e2; filter key de-duplication across blocks: C13e1, C14e1,',
         'C14e2; `First` fragment appended instead of replacing: C12e1, C12e2, C16e1, C08f2) - a hint at which mistakes are the likely ones.',
         '`tools/seed_matrix.py` applies every change to a private copy of /repo and runs the *whole quick check* of its property (and of',
         'neighbouring properties); `seeded/<id>/detect.json` holds the output, `seeded/MATRIX.md` the table. Result: **%d of %d** changes' % (c, n),
-        'are reported with exit 1 and a native confirmation. A change that a check notices only as "inconclusive" (exit 2) is not',
+        'are reported with exit 1 and a native confirmation by the check of their own property or of a neighbouring property that shares the mechanism (sixteen',
+        'are reported only by a neighbour in the stored detect.json files - most of those runs predate the listing of the reporting obligation under the seed\'s own property; the matrix lists who reports what). A change that a check notices only as "inconclusive" (exit 2) is not',
         'counted. The last column names what was built or strengthened because the change was first missed; an empty cell means a',
         'check that already existed reported it.', '',
         '| seed | function changed | whole-property quick check | reporting obligations | built / strengthened because of it |', '|---|---|---|---|---|']
